@@ -1175,6 +1175,13 @@ func propC01(r *Run) {
 		r.op("gb.qualifier " + encRegistry(registry{}) + " x " + encStr(s+"\n"))
 	}
 
+	// --- hand-built Props with a repeated qualifier name (F31, props_c01_dup.go) ------
+	nDup := 300
+	if !quick {
+		nDup = 2500
+	}
+	repeatedNameCases(r, nDup)
+
 	// --- records reached by edit pipelines ------------------------------------------
 	var seqPool []gts.Sequence
 	for _, gb := range append(append([]seqio.GenBank{}, corpus...), pool...) {
